@@ -14,8 +14,15 @@
      unit (the harness uses quarter seconds, on which binary64 arithmetic is exact).
    * Exceptions are values (Prim/Exn.v).  A method returns the state it leaves behind *also* when it raises, so that
      "a rejected update leaves all state unchanged" is a statement about the model and not a convention.
-   * Every `self._broker.propagate(track, event)` is recorded as a call (event, track); the deliveries to the
-     registered callbacks are `trk_deliver` of the calls (the subscriber list does not change during an operation).
+   * Every `self._broker.propagate(track, event)` is recorded as a call (event, track).  This first part (`trk_*`)
+     is the model for subscriber callbacks that RETURN NORMALLY: the deliveries to the registered callbacks are then
+     `trk_deliver` of the calls (the subscriber list does not change during an operation).  The second part of this
+     file (`trkc_*`, "callbacks that may raise") is the general model: every callback has a behaviour (returns / raises
+     an exception value), `propagate` stops at the first callback that raises, `pop_track` swallows a KeyError,
+     everything else escapes through insert_track / update_track / insert_or_update / cleanup / update as in the
+     Python.  With quiet callbacks the general model reduces to the first part (Proofs/TrackerCbProofs.v
+     `trkc_step_quiet`); C12 is stated over the first part, C13-C15 over the general one.  Callbacks that call back
+     into the tracker (re-entrancy) are outside both.
 
    The model follows the code AFTER the two repairs
      fix: cleanup() scans the tracks oldest first in unordered mode as well          (C13)
